@@ -73,9 +73,8 @@ type loadOutcome struct {
 
 // loadVia loads the image through deb.Load on a simulated disk, or through
 // deb.LoadFile on the simulated file system, and reads the payload to the end.
-func loadVia(r *rt.Run, via string, img []byte, disk *simdisk.Disk, readData bool) loadOutcome {
-	var o loadOutcome
-	o.task = r.Solo("loader", func() {
+func loadBody(r *rt.Run, via string, img []byte, disk *simdisk.Disk, readData bool, o *loadOutcome) func() {
+	return func() {
 		var closer func() error
 		switch via {
 		case "Load":
@@ -102,7 +101,12 @@ func loadVia(r *rt.Run, via string, img []byte, disk *simdisk.Disk, readData boo
 		} else {
 			o.cerr = o.d.Close()
 		}
-	})
+	}
+}
+
+func loadVia(r *rt.Run, via string, img []byte, disk *simdisk.Disk, readData bool) loadOutcome {
+	var o loadOutcome
+	o.task = r.Solo("loader", loadBody(r, via, img, disk, readData, &o))
 	return o
 }
 
@@ -176,6 +180,19 @@ func runC14(r *rt.Run, tier string) {
 
 	key := via + "/" + p.CtlCodec + "+" + p.DataCodec
 	nloads := 1 + t.Draw(3, "c14.loads")
+	// fault-free loads may run as concurrent tasks, interleaved at every disk
+	// read: several packages open at the same time (shared decoder state shows)
+	concurrent := mode == 0 && !lz && via == "Load" && nloads > 1 && t.Bool(1, 2, "c14.concurrent")
+	var pre []loadOutcome
+	if concurrent {
+		r.Probe("loads-interleaved")
+		r.Sticky = t.Draw(3, "sched.sticky")
+		pre = make([]loadOutcome, nloads)
+		for li := 0; li < nloads; li++ {
+			pre[li].task = r.Go(fmt.Sprintf("L%d", li), loadBody(r, via, img, newDisk(), true, &pre[li]))
+		}
+		r.Sched()
+	}
 	var firstErr error
 	for li := 0; li < nloads; li++ {
 		disk := newDisk()
@@ -190,7 +207,12 @@ func runC14(r *rt.Run, tier string) {
 			}
 			disk.FailRange(badLo, badLo+1+t.Draw(32, "fault.len"))
 		}
-		o := loadVia(r, via, img, disk, true)
+		var o loadOutcome
+		if concurrent {
+			o = pre[li]
+		} else {
+			o = loadVia(r, via, img, disk, true)
+		}
 		if taskTrouble(r, "C14", key, o.task) {
 			return
 		}
@@ -287,5 +309,5 @@ func init() {
 		},
 		Assumptions: []string{"kjk/lzma decodes in its own goroutine: for packages with an lzma member the disk runs in quiet mode (no trace events, no EIO) so that the trace stays deterministic", "tar and gzip writers of the Go stdlib and the zstd/lzma encoders of the third-party modules are trusted to produce valid payloads"},
 	})
-	propProbes["C14"] = []string{"via-LoadFile", "loaded-repeatedly", "extra-underscore-member"}
+	propProbes["C14"] = []string{"loads-interleaved", "via-LoadFile", "loaded-repeatedly", "extra-underscore-member"}
 }
